@@ -142,6 +142,7 @@ def run(ctx):
         ctx.rule(one_class, c)
     ctx.rule(octave_validation)
     ctx.rule(no_derived_state)
+    ctx.rule(names)
     ctx.info["exhaustive"] = False
 
 
@@ -270,3 +271,9 @@ def no_derived_state(ctx, R="R-C19/no-derived-state"):
                 ctx.bad(R, f, node, "%s.%s writes self.%s: a scaling function must be a pure function of its parameters" % (c.name, f.name, attr),
                         "scaling functions keep no mutable state")
     ctx.ok(R, "src/pydrobert/speech/scales.py", "no scaling function method writes instance state")
+
+
+
+def names(ctx, R="R-C19/names"):
+    from .c08 import family_names_resolve
+    family_names_resolve(ctx, R, "scales.ScalingFunction", {"linear": "LinearScaling", "octave": "OctaveScaling", "mel": "MelScaling", "bark": "BarkScaling"})
